@@ -150,3 +150,80 @@ def run(rep, strict_diff):
                                     too_big=sum(1 for l in cert if " TOOBIG " in l), unsupported=sum(1 for l in cert if " UNSUPPORTED " in l),
                                     decoration_histogram=dh, templates=sorted({t for _, _, _, t, _ in usable}))
     return viol, broken
+
+
+def run_mem(rep, strict_diff):
+    """third family: decoration twins of designs WITH memories (lib/memgen.py), netlists with memories
+    (NetMemDefs.v), machine-generic verified certificates (MachineCert.gcheck_cert, extracted driver NM):
+    strict A.pre vs B.pre, compat A.def vs B.def; same stimuli by `stimkey`; direct diff of real traces"""
+    import memgen
+    work = V.BUILD / "work" / "C11m"
+    work.mkdir(parents=True, exist_ok=True)
+    for f in work.glob("*"):
+        if f.is_file(): f.unlink()
+    harness = V.build_harness("C01_design")
+    driver = V.build_model("NM")
+    n, budget = (24, 250000) if rep.tier == "quick" else (200, 1000000)
+    pairs, progs = [], []
+    for i in range(n):
+        a = memgen.gen_mem_design(rep.seed * 910003 + i, f"MA{i}")
+        b, ap = G.decorate(a, rep.seed * 77 + i)
+        a = [a[0], f"stimkey mp{i}"] + a[1:]
+        b = [f"design MB{i}", f"stimkey mp{i}"] + [l for l in b[1:] if not l.startswith("stimkey")]
+        pairs.append((f"MA{i}", f"MB{i}", ap)); progs += [a, b]
+    prog = {p[0].split()[1]: p for p in progs}
+    G.write_programs(work / "designs.txt", progs)
+    circ.run_harness(harness, str(work / "designs.txt"), str(work), "pre,def", nstim=2, cycles=10)
+    def sched(path):
+        t = circ.parse_traces(path)
+        return None if "SKIP" in t or not t else [c[2] for c in next(iter(t.values()))["cycles"]]
+    cmds, viol, broken, comparable = [], [], [], 0
+    for ia, ib, ap in pairs:
+        for v in ("pre", "def"):
+            ta, tb = circ.parse_traces(work / f"{ia}.{v}.trace"), circ.parse_traces(work / f"{ib}.{v}.trace")
+            if ("SKIP" in ta) != ("SKIP" in tb):
+                viol.append(dict(kind="only one memory twin could be built / post-processed", variant=v, programA=prog[ia], programB=prog[ib], decorations=ap,
+                                 detail=dict(A=ta.get("SKIP"), B=tb.get("SKIP")))); continue
+            if "SKIP" in ta: continue
+            for i in (ia, ib): cmds.append(f"tie {work}/{i}.{v}.net {work}/{i}.{v}.trace")
+            if sched(work / f"{ia}.{v}.trace") != sched(work / f"{ib}.{v}.trace"):
+                viol.append(dict(kind="decoration changes the reset schedule of a memory design", variant=v, programA=prog[ia], programB=prog[ib], decorations=ap)); continue
+            comparable += 1
+            cmds.append(f"cert {'strict' if v == 'pre' else 'compat'} {work}/{ia}.{v}.net {work}/{ib}.{v}.net {work}/{ia}.{v}.trace {budget}")
+            for tag, x in ta.items():
+                y = tb.get(tag.replace(f"{ia}.", f"{ib}."))
+                d = (strict_diff(x, y) if v == "pre" else circ.direct_diff(x, y)) if y else None
+                if d:
+                    viol.append(dict(kind="real traces of memory decoration twins differ", variant=v, programA=prog[ia], programB=prog[ib], decorations=ap,
+                                     stimulus=circ.stim_of(x), real_simulator=d)); break
+    lines = circ.run_driver(driver, cmds, str(work / "batch")) if driver else []
+    if driver is None: broken.append("extracted memory-netlist model no longer builds")
+    tie_bad = [l for l in lines if l.startswith("TIE") and "MISMATCH" in l]
+    cert = [l for l in lines if l.startswith("CERT")]
+    fail = [l for l in cert if " FAIL " in l]; rej = [l for l in cert if " REJECTED " in l]
+    seen = {v["programA"][0] for v in viol}
+    for l in fail:
+        p = l.split(); fa, fb = p[1].split("/")[-1], p[2].split("/")[-1]
+        ia, va = fa.rsplit(".", 2)[0], fa.rsplit(".", 2)[1]; ib = fb.rsplit(".", 2)[0]
+        if f"design {ia}" in seen: continue
+        m = [x for x in p if x.startswith("stimulus=")]
+        if not m: broken.append("memory twin certificate failed without stimulus: " + l[:200]); continue
+        stim = m[0][len("stimulus="):]
+        cex = work / "cex"; cex.mkdir(exist_ok=True)
+        G.write_programs(cex / "designs.txt", [prog[ia], prog[ib]])
+        open(cex / "stim.txt", "w").write(f"{ia} {stim}\n{ib} {stim}\n")
+        circ.run_harness(harness, str(cex / "designs.txt"), str(cex), va, replay_stim=str(cex / "stim.txt"))
+        x = circ.parse_traces(cex / f"{ia}.{va}.trace").get(f"{ia}.{va} replay"); y = circ.parse_traces(cex / f"{ib}.{va}.trace").get(f"{ib}.{va} replay")
+        real = (strict_diff(x, y) if va == "pre" else circ.direct_diff(x, y)) if x and y else None
+        if real:
+            viol.append(dict(kind="memory decoration twins differ (product BFS counterexample confirmed on the real simulator)", variant=va,
+                             programA=prog[ia], programB=prog[ib], stimulus=stim, real_simulator=real, model=l)); seen.add(f"design {ia}")
+        else:
+            broken.append("memory twin counterexample not reproduced on the real simulator: " + l[:200])
+    if tie_bad: broken.append(f"{len(tie_bad)} tie mismatches (memory twins), first: {tie_bad[0][:250]}")
+    if rej: broken.append(f"{len(rej)} certificates rejected by the verified checker (memory twins), first: {rej[0][:250]}")
+    rep.cov["memory_twins"] = dict(pairs=len(pairs), compared_variant_pairs=comparable, traces_validated_against_impl=sum(1 for l in lines if l.startswith("TIE") and " ok " in l),
+                                   tie_unsupported=sum(1 for l in lines if l.startswith("TIE") and "UNSUPPORTED" in l),
+                                   certificates_accepted=sum(1 for l in cert if " OK " in l), certificates_failed=len(fail),
+                                   too_big=sum(1 for l in cert if " TOOBIG " in l), unsupported=sum(1 for l in cert if " UNSUPPORTED " in l))
+    return viol, broken
